@@ -295,7 +295,8 @@ Lemma spawn_one_ok w k m0 :
     WInv (set_ents w1 ents') /\
     (forall c, abs (set_ents w1 ents') k c = None) /\ sm_get k (w_ents (set_ents w1 ents')) = Some loc /\
     (forall e c, e <> k -> abs (set_ents w1 ents') e c = abs w e c) /\
-    (forall e, e <> k -> sm_get e (w_ents (set_ents w1 ents')) = sm_get e (w_ents w)).
+    (forall e, e <> k -> sm_get e (w_ents (set_ents w1 ents')) = sm_get e (w_ents w)) /\
+    w_aby (set_ents w1 ents') = w_aby w.
 Proof.
   intros HW Hins. pose proof HW as (Hst & Hg & H0). destruct (WInv_arch0 w HW) as (a0 & Ha0 & Hc0).
   pose proof Hst as (Hsm & Hl & Hr).
@@ -343,7 +344,7 @@ Proof.
   { eapply (GraphInv_ext (set_archs w (slab_set (w_archs w) 0 a2))); [cbn [w_archs set_ents]; exact An|cbn [w_aby set_ents]; exact Bn|].
     eapply GraphInv_set; [exact Hg|exact Ha0|repeat split]. }
   split; [split; [exact Hst'|split; [exact Hg'|unfold aby_lookup; cbn [w_aby set_ents]; rewrite Bn; exact H0]]|].
-  split; [|split; [exact Hknew|split]].
+  split; [|split; [exact Hknew|split; [|split; [|exact Bn]]]].
   - intros c. rewrite (abs_of_row (set_ents wn ents') 0 a2 (nlen (a_rows a0)) k [] c Hst'); [|rewrite Hat; reflexivity|unfold a2; cbn [a_rows set_rows]; apply nget_snoc_last].
     unfold row_col. destruct (col_index (a_comps a2) c) as [i|]; [|reflexivity]. now destruct (i =? 0).
   - intros e c Hne. unfold abs at 1. cbn [w_ents set_ents]. rewrite (Hkold e Hne). unfold abs.
@@ -351,4 +352,104 @@ Proof.
     apply N.eqb_eq in E. subst ai. unfold arch_at. rewrite Ha0. destruct (Hl _ _ _ He) as (b & vb & Hb & Hnb). unfold arch_at in Hb. rewrite Ha0 in Hb. inversion Hb; subst b.
     unfold a2. cbn [a_rows set_rows]. rewrite nget_app_l by (eapply nget_some_lt; eauto). rewrite Hnb. apply row_col_comps. reflexivity.
   - intros e Hne. cbn [w_ents set_ents]. exact (Hkold e Hne).
+Qed.
+
+(* [w'] extends [w] by freshly spawned, component-less entities *)
+Definition ext_by_spawn (w w' : world) : Prop :=
+  WInv w' /\
+  (forall e, sm_get e (w_ents w) <> None -> sm_get e (w_ents w') = sm_get e (w_ents w) /\ forall c, abs w' e c = abs w e c) /\
+  (forall e, sm_get e (w_ents w) = None -> forall c, abs w' e c = None) /\
+  w_aby w' = w_aby w.
+
+Lemma ext_by_spawn_refl w : WInv w -> ext_by_spawn w w.
+Proof. intros H. split; [exact H|]. split; [auto|]. split; [|reflexivity]. intros e He c. now apply abs_dead. Qed.
+
+Lemma ext_by_spawn_trans w1 w2 w3 : ext_by_spawn w1 w2 -> ext_by_spawn w2 w3 -> ext_by_spawn w1 w3.
+Proof.
+  intros (_ & Hl1 & Hd1 & Hb1) (HW & Hl2 & Hd2 & Hb2). split; [exact HW|]. split; [|split; [|congruence]].
+  - intros e He. destruct (Hl1 e He) as [Hs1 Ha1]. assert (He2 : sm_get e (w_ents w2) <> None) by (rewrite Hs1; exact He).
+    destruct (Hl2 e He2) as [Hs2 Ha2]. split; [congruence|]. intros c. now rewrite Ha2.
+  - intros e He c. destruct (sm_get e (w_ents w2)) as [l|] eqn:E2.
+    + assert (He2 : sm_get e (w_ents w2) <> None) by congruence. destruct (Hl2 e He2) as [_ Ha2]. rewrite Ha2. now apply Hd1.
+    + now apply Hd2.
+Qed.
+
+Lemma WInv_ext w w' : w_ents w' = w_ents w -> w_archs w' = w_archs w -> w_aby w' = w_aby w -> WInv w -> WInv w'.
+Proof.
+  intros He Ha Hb (Hs & Hg & H0). split; [eapply StoreInv_ext; eauto|]. split; [eapply GraphInv_ext; eauto|].
+  unfold aby_lookup in *. now rewrite Hb.
+Qed.
+
+Lemma ext_by_spawn_ext w w1 w2 : w_ents w2 = w_ents w1 -> w_archs w2 = w_archs w1 -> w_aby w2 = w_aby w1 ->
+  ext_by_spawn w w1 -> ext_by_spawn w w2.
+Proof.
+  intros He Ha Hb (HW & Hl & Hd & Hby). split; [eapply WInv_ext; eauto|]. split; [|split; [|congruence]].
+  - intros e Hlive. destruct (Hl e Hlive) as [H1 H2]. split; [now rewrite He|]. intros c. rewrite (abs_ext w1 w2 He Ha). apply H2.
+  - intros e Hdead c. rewrite (abs_ext w1 w2 He Ha). now apply Hd.
+Qed.
+
+(* ReservedEntities::spawn_all: every materialised reservation is a new component-less entity; nothing
+   that existed changes; the only failure is the exhaustion of the 2^32-1 slots *)
+Lemma spawn_all_n_ok n : forall w, WInv w ->
+  match spawn_all_n n w with
+  | ROk _ w' => ext_by_spawn w w'
+  | RFail f w' => f = FPanic 5 /\ ext_by_spawn w w'
+  end.
+Proof.
+  induction n as [|n IH]; intros w HW; cbn [spawn_all_n]; [now apply ext_by_spawn_refl|].
+  destruct (insert_with (fun _ => (0, 0)) (w_ents w)) as [[k m0]|] eqn:Ei; [|split; [reflexivity|now apply ext_by_spawn_refl]].
+  destruct (spawn_one_ok w k m0 HW Ei) as (loc & w1 & ents' & Esp & Eins & HW' & Hnew & Hget & Hoth & Hoth' & Hby).
+  rewrite Esp, Eins.
+  assert (Hfresh : sm_get k (w_ents w) = None) by (destruct HW as ((Hsm & _) & _); exact (insert_get_fresh _ _ _ _ Hsm Ei)).
+  assert (Hstep : ext_by_spawn w (set_ents w1 ents')).
+  { split; [exact HW'|]. split; [|split; [|exact Hby]].
+    - intros e He. assert (e <> k) by (intros ->; congruence). split; [now apply Hoth'|]. intros c. now apply Hoth.
+    - intros e He c. destruct (key_eq_dec e k) as [->|Hne]; [apply Hnew|]. rewrite Hoth by exact Hne. now apply abs_dead. }
+  specialize (IH (set_ents w1 ents') HW'). destruct (spawn_all_n n (set_ents w1 ents')) as [[] w'|f w'].
+  - eapply ext_by_spawn_trans; eauto.
+  - destruct IH as [-> IH]. split; [reflexivity|]. eapply ext_by_spawn_trans; eauto.
+Qed.
+
+Theorem spawn_all_ok w : WInv w ->
+  match spawn_all w with
+  | ROk _ w' => ext_by_spawn w w'
+  | RFail f w' => f = FPanic 5 /\ ext_by_spawn w w'
+  end.
+Proof.
+  intros HW. unfold spawn_all. pose proof (spawn_all_n_ok (N.to_nat (w_rcnt w)) w HW) as H.
+  destruct (spawn_all_n (N.to_nat (w_rcnt w)) w) as [[] w1|f w1]; cbn [rbind]; [|exact H].
+  eapply ext_by_spawn_ext; [| | |exact H]; reflexivity.
+Qed.
+
+(* the Despawn effect (world.rs:1147-1169 after F2): reservations are materialised first, then the
+   target's row is removed.  On a consistent world it cannot hit an unchecked failure; afterwards the
+   world is consistent, the target is gone, and every other entity that existed keeps every component. *)
+Theorem despawn_effect_ok w e loc :
+  WInv w -> sm_get e (w_ents w) = Some loc ->
+  match (do (_, w2) <- spawn_all w; do (_, w3) <- remove_entity w2 loc; ROk tt (refresh_cursor w3)) with
+  | ROk _ w' => WInv w' /\ sm_get e (w_ents w') = None /\
+                (forall k, k <> e -> sm_get k (w_ents w) <> None -> sm_get k (w_ents w') <> None /\ forall c, abs w' k c = abs w k c) /\
+                (forall k, k <> e -> sm_get k (w_ents w) = None -> forall c, abs w' k c = None) /\
+                w_aby w' = w_aby w
+  | RFail f w' => f = FPanic 5 /\ ext_by_spawn w w'
+  end.
+Proof.
+  intros HW He. pose proof (spawn_all_ok w HW) as Hsp. destruct (spawn_all w) as [[] w2|f w2]; cbn [rbind]; [|exact Hsp].
+  destruct Hsp as (HW2 & Hl2 & Hd2 & Hb2). pose proof HW2 as (Hst2 & Hg2 & H02).
+  assert (Hlive : sm_get e (w_ents w) <> None) by congruence. destruct (Hl2 e Hlive) as [He2 Habs2]. rewrite He in He2.
+  destruct loc as [ai row]. pose proof Hst2 as (_ & Hlk & _). destruct (Hlk _ _ _ He2) as (a & vals & Ha & Hrow).
+  destruct (remove_entity_ok_full w2 ai row a e vals Hst2 Ha Hrow) as (w3 & -> & Hst3 & Hgone & Hoth & Harchs & Haby & Hdead & Hstay).
+  cbn [rbind]. unfold refresh_cursor.
+  assert (HW3 : WInv w3).
+  { split; [exact Hst3|]. split.
+    - eapply (GraphInv_ext (set_archs w2 (slab_set (w_archs w2) ai (set_rows a (swap_remove (a_rows a) row))))); [exact Harchs|exact Haby|].
+      eapply GraphInv_set; [exact Hg2|exact Ha|repeat split].
+    - unfold aby_lookup in *. now rewrite Haby. }
+  split; [eapply WInv_ext; [| | |exact HW3]; reflexivity|]. cbn [w_ents set_res].
+  split; [exact Hgone|]. split; [|split].
+  - intros k Hne Hk. destruct (Hl2 k Hk) as [Hk2 Hka2]. split.
+    + apply Hstay; [exact Hne|]. now rewrite Hk2.
+    + intros c. rewrite (abs_ext w3 (set_res w3 _ _)) by reflexivity. rewrite Hoth by exact Hne. apply Hka2.
+  - intros k Hne Hk c. rewrite (abs_ext w3 (set_res w3 _ _)) by reflexivity. rewrite Hoth by exact Hne. now apply Hd2.
+  - cbn [w_aby set_res]. congruence.
 Qed.
